@@ -309,6 +309,9 @@ def directed_polarity(root, fl):
                 dl.add(s.rv.ops[0].place.local)
                 changed = True
     out = {}
+    dflow = set()
+    for l_ in dl:
+        dflow |= fl.slice_local({("L", l_)}, data_only=True)
     hir = root.item.get("hir") or {}
     # typed HIR: match arms with string literal patterns whose bodies assign directed
     for m in hir.get("matches", []):
@@ -323,9 +326,19 @@ def directed_polarity(root, fl):
             sp = a["body_span"]
             # constant assignments to `directed` whose span lies inside this arm body
             for s in root.stmts():
-                if s.k == "assign" and s.lhs.local in dl and not s.lhs.proj and s.rv.k == "use" and s.rv.ops[0].is_const():
-                    ss = s.span
-                    if ss["file"] == sp["file"] and (sp["line"], sp["col"]) <= (ss["line"], ss["col"]) and (ss["eline"], ss["ecol"]) <= (sp["eline"], sp["ecol"]):
-                        v = s.rv.ops[0].const_int()
-                        out[lit] = bool(v)
+                if s.k != "assign" or s.lhs.proj or s.rv is None:
+                    continue
+                # `directed = true`, or a value built in the arm that flows into `directed` (`Ok(true)` returned by a
+                # helper and unwrapped by the caller)
+                cands = []
+                if s.lhs.local in dl and s.rv.k == "use" and s.rv.ops[0].is_const():
+                    cands = [s.rv.ops[0]]
+                elif ("L", s.lhs.local) in dflow and s.rv.k in ("aggr", "use"):
+                    cands = [o for o in s.rv.ops if o.is_const() and (o.c or {}).get("ty") == "bool"]
+                if len(cands) != 1:
+                    continue
+                ss = s.span
+                if ss and ss["file"] == sp["file"] and (sp["line"], sp["col"]) <= (ss["line"], ss["col"]) and (ss["eline"], ss["ecol"]) <= (sp["eline"], sp["ecol"]):
+                    v = cands[0].const_int()
+                    out[lit] = bool(v)
     return out or None
